@@ -156,6 +156,15 @@ var c04Funcs = []string{
 	"func vg(a, ..) {println(..); len(..)}",
 	"func rebind(x) {r = sq(x); sq = y => y * 2; r}",
 	"func unbind(x) {r = sq(x); sq = 3; r}",
+	// round 8: the same from functions that never read the name they assign (the assignment reaches the global through
+	// the scope chain), from a nested function, from a loop variable and through a parameterless lambda
+	"func unbind2() {sq = 3}",
+	"func rebind2() {sq = y => y + 1000}",
+	"func unbindf() {rg = 7}",
+	"func unbind3() {inner = () => {sq = 4}; inner()}",
+	"func loopbind() {for sq = 2 {}}",
+	"func loopbind2() {for sq = [8] {}}",
+	"func four(a, b, c, d) {println(\"four\"); a + b + c + d}",
 	"func shot(n) {image.png(n)}",
 	"func nm1() {println(self); 1}",
 	"func nm2() {println(self); 1}",
@@ -209,7 +218,7 @@ func (p c04) session(c *fw.Ctx) []string {
 	}
 	n := 10 + r.IntN(40)
 	for k := 0; k < n; k++ {
-		switch r.IntN(59) {
+		switch r.IntN(64) {
 		case 0:
 			in = append(in, "p1("+small()+", "+small()+")")
 		case 1:
@@ -312,6 +321,20 @@ func (p c04) session(c *fw.Ctx) []string {
 			in = append(in, "ap2("+k+")", "unbind("+k+")", "catch(ap2("+k+")).err", "sq = x => x * x", "ap2("+k+")")
 		case 51:
 			in = append(in, "image.new(\"ci\", 2, 2); b1 = shot(\"ci\"); image.set(\"ci\", 0, 0, [255, 0, 0]); b2 = shot(\"ci\"); [b1 == b2, b2 == image.png(\"ci\")]")
+		case 62, 63: // a call with exactly four arguments (the most a key holds), then calls with more that agree on those four
+			k := small()
+			in = append(in, "va(1, 2, 3, "+k+")", "va(1, 2, 3, "+k+", 5)", "va(1, 2, 3, "+k+", 5, 6)", "va(1, 2, 3, "+k+")", "four(1, 2, 3, "+k+")", "catch(four(1, 2, 3, "+k+", 5))",
+				"vg(1, 2, 3, "+k+")", "vg(1, 2, 3, "+k+", 9)", "four(1, 2, 3, "+k+")")
+		case 59, 60, 61: // a function valued global re-bound from inside a function that never read it
+			k := small()
+			calls := []string{"ap2(" + k + ")", "callsq(" + k + ")", "twice(sq, " + k + ")", "w1(" + k + ")", "w3(" + k + ")"}
+			in = append(in, calls...)
+			in = append(in, []string{"unbind2()", "rebind2()", "unbindf()", "unbind3()", "loopbind()", "loopbind2()"}[r.IntN(6)])
+			for _, cl := range calls {
+				in = append(in, "catch("+cl+")")
+			}
+			in = append(in, "sq = x => x * x", "func rg(a) {a + g1}")
+			in = append(in, calls...)
 		case 42:
 			in = append(in, "rebind(5)", "rebind(5)", "sq = x => x * x")
 		case 43:
